@@ -518,15 +518,17 @@ def rule_splitter(ctx, px):
         idx = _lin_full(pn.node, mg[0].value.slice, consts2)
         src = unparse(mg[0].value.value)
         mvar = unparse(mg[0].targets[0])
-        ifs = [n for n in ast.walk(pn.node) if isinstance(n, ast.If) and isinstance(n.test, ast.Compare) and unparse(n.test.left) == mvar]
-        if idx is not None and idx.const == 16 and not idx.terms and len(ifs) == 1 and isinstance(ifs[0].test.comparators[0], ast.Constant):
-            op, k = type(ifs[0].test.ops[0]), ifs[0].test.comparators[0].value
-            dflt_body = {(ast.GtE, 2): ifs[0].body, (ast.Gt, 1): ifs[0].body, (ast.Lt, 2): ifs[0].orelse, (ast.LtE, 1): ifs[0].orelse}.get((op, k))
-            leg_body = ifs[0].orelse if dflt_body is ifs[0].body else ifs[0].body
-            if dflt_body is not None:
-                d = " ".join(unparse(x) for x in dflt_body)
-                l = " ".join(unparse(x) for x in leg_body)
-                okm = f"DefaultRecordBatch({src})" in d and f"LegacyRecordBatch({src}, {mvar})" in l
+        if idx is not None and idx.const == 16 and not idx.terms:
+            # every hand-out of a v2 batch is guarded by magic >= 2, every hand-out of a legacy batch by magic < 2 (facts on all paths)
+            from ..rulekit import must_facts
+            cn = ctx.cfg(pn)
+            mf = must_facts(cn)
+            rets = [r for r in cn.nodes if r.kind == "return" and isinstance(r.ast.value, ast.Call)]
+            d_ok = [r for r in rets if unparse(r.ast.value) == f"DefaultRecordBatch({src})"]
+            l_ok = [r for r in rets if unparse(r.ast.value) == f"LegacyRecordBatch({src}, {mvar})"]
+            okm = len(d_ok) >= 1 and len(l_ok) >= 1 and len(d_ok) + len(l_ok) == len(rets) \
+                and all(("2", "<=", mvar) in mf[r] or ("1", "<", mvar) in mf[r] for r in d_ok) \
+                and all((mvar, "<", "2") in mf[r] or (mvar, "<=", "1") in mf[r] for r in l_ok)
     ctx.ob(R, pn, pn.node, okm, "python splitter: class not chosen from the handed-out slice's own magic byte (index 16)", text="py-class-by-magic")
 
 
@@ -720,6 +722,123 @@ def rule_mask_compare(ctx, px):
     ctx.anchor(n_cmp >= 1, "comparisons of masked attribute values in the record readers")
 
 
+
+# ---- xerial snappy framing (aiokafka.codec) ---------------------------------------------------------------------------------
+def rule_xerial(ctx):
+    R = "xerial-framing"
+    ctx.rep.rule(R, "snappy_decode's block scan (the 16-byte xerial header, then [int32 length][block] ...): cursor and loop bound are "
+                    "offsets into the same buffer -- the bound is exactly the length of the buffer the cursor indexes, and the first "
+                    "block is read at payload offset 16 = calcsize of the header format (linear resolution of the locals through their "
+                    "single definitions); the cursor moves by 4 and then to cursor + block_size, the slice decompressed is [cursor:end]. "
+                    "snappy_encode writes the header fields, then per chunk the big-endian int32 length of the compressed block and the block")
+    import struct as _struct
+    fi = ctx.fn("aiokafka.codec.snappy_decode")
+    c = ctx.cfg(fi)
+    mod = ctx.repo.module("aiokafka.codec")
+    fmt = None
+    for st in mod.tree.body:
+        if isinstance(st, ast.Assign) and unparse(st.targets[0]) == "_XERIAL_V1_FORMAT" and isinstance(st.value, ast.Constant):
+            fmt = st.value.value
+    ctx.anchor(isinstance(fmt, str), "_XERIAL_V1_FORMAT literal")
+    hdr = _struct.calcsize("!" + fmt)
+    ctx.ob(R, fi, fi.node, hdr == 16, f"xerial header format {fmt!r} is {hdr} bytes, the format has 16", text="header-size")
+    pay = fi.params()[0]
+    loops = [h for h in c.nodes if h.kind == "loop" and isinstance(h.ast, ast.While)]
+    ctx.anchor(len(loops) == 1, "one block loop in snappy_decode")
+    loop = loops[0].ast
+
+    def single_def(name):
+        ds = [n for n in ast.walk(fi.node) if isinstance(n, ast.Assign) and len(n.targets) == 1 and isinstance(n.targets[0], ast.Name) and n.targets[0].id == name]
+        outside = [d for d in ds if not any(d is x for x in ast.walk(loop))]
+        return outside[0].value if len(outside) == 1 else None
+
+    def buf(e, depth=0):
+        """(offset of the buffer expression's first byte in payload, True) or None."""
+        if depth > 6:
+            return None
+        if isinstance(e, ast.Name):
+            if e.id == pay:
+                return 0
+            d = single_def(e.id)
+            return buf(d, depth + 1) if d is not None else None
+        if isinstance(e, ast.Call) and unparse(e.func) in ("memoryview", "bytes", "bytearray") and len(e.args) == 1:
+            return buf(e.args[0], depth + 1)
+        if isinstance(e, ast.Subscript) and isinstance(e.slice, ast.Slice) and e.slice.upper is None and e.slice.step is None:
+            b = buf(e.value, depth + 1)
+            k = val(e.slice.lower, depth + 1) if e.slice.lower is not None else (0, 0)
+            if b is None or k is None or k[0] != 0:
+                return None
+            return b + k[1]
+        return None
+
+    def val(e, depth=0):
+        """integer expression as (coefficient of len(payload), constant) or None."""
+        if depth > 6:
+            return None
+        if isinstance(e, ast.Constant) and isinstance(e.value, int):
+            return (0, e.value)
+        if isinstance(e, ast.Name):
+            d = single_def(e.id)
+            return val(d, depth + 1) if d is not None else None
+        if isinstance(e, ast.Call) and unparse(e.func) == "len" and len(e.args) == 1:
+            b = buf(e.args[0], depth + 1)
+            return (1, -b) if b is not None else None
+        if isinstance(e, ast.Call) and unparse(e.func) == "struct.calcsize" and len(e.args) == 1:
+            a = e.args[0]
+            txt = None
+            if isinstance(a, ast.Constant) and isinstance(a.value, str):
+                txt = a.value
+            elif isinstance(a, ast.BinOp) and isinstance(a.op, ast.Add) and isinstance(a.left, ast.Constant) and unparse(a.right) == "_XERIAL_V1_FORMAT":
+                txt = a.left.value + fmt
+            try:
+                return (0, _struct.calcsize(txt)) if txt is not None else None
+            except Exception:
+                return None
+        if isinstance(e, ast.BinOp) and isinstance(e.op, (ast.Add, ast.Sub)):
+            a, b = val(e.left, depth + 1), val(e.right, depth + 1)
+            if a is None or b is None:
+                return None
+            sg = 1 if isinstance(e.op, ast.Add) else -1
+            return (a[0] + sg * b[0], a[1] + sg * b[1])
+        return None
+    t = loop.test
+    ok_form = isinstance(t, ast.Compare) and len(t.ops) == 1 and isinstance(t.ops[0], (ast.Lt, ast.NotEq)) and isinstance(t.left, ast.Name)
+    ctx.anchor(ok_form, "block loop test `cursor < bound`")
+    cur = t.left.id
+    bound = val(t.comparators[0])
+    start = val(ast.Name(id=cur, ctx=ast.Load()))
+    # the buffer the cursor indexes inside the loop
+    bufs = set()
+    for n in ast.walk(loop):
+        if isinstance(n, ast.Subscript) and isinstance(n.slice, ast.Slice) and n.slice.lower is not None and cur in {x.id for x in ast.walk(n.slice.lower) if isinstance(x, ast.Name)}:
+            bufs.add(unparse(n.value))
+        if isinstance(n, ast.Call) and unparse(n.func) == "struct.unpack_from" and len(n.args) == 3 and cur in {x.id for x in ast.walk(n.args[2]) if isinstance(x, ast.Name)}:
+            bufs.add(unparse(n.args[1]))
+    okb = len(bufs) == 1
+    base = buf(ast.parse(next(iter(bufs)), mode="eval").body) if okb else None
+    okb = okb and base is not None and bound is not None and start is not None
+    if okb:
+        # bound == len(buffer)  and  first block at payload offset == header size
+        okb = bound == (1, -base) and start[0] == 0 and start[1] + base == hdr
+    ctx.ob(R, fi, loops[0], okb, f"block scan of snappy_decode: bound {bound} (coefficient of len(payload), constant) over a buffer starting at payload offset {base}, "
+                                 f"cursor starting at {start}: the scan must begin at offset {hdr} and end exactly at the end of the buffer it indexes "
+                                 "(a shorter bound silently drops the final block)", text="scan-covers-buffer")
+    # cursor movement
+    body_txt = [unparse(x) for x in loop.body]
+    adv4 = any(x in (f"{cur} += 4", f"{cur} = {cur} + 4") for x in body_txt)
+    endd = [x for x in loop.body if isinstance(x, ast.Assign) and isinstance(x.value, ast.BinOp) and isinstance(x.value.op, ast.Add)
+            and {unparse(x.value.left), unparse(x.value.right)} == {cur, "block_size"}]
+    okm = adv4 and len(endd) == 1 and any(x == f"{cur} = {unparse(endd[0].targets[0])}" for x in body_txt) \
+        and any(f"[{cur}:{unparse(endd[0].targets[0])}]" in x and "decompress_raw" in x for x in body_txt) \
+        and any("block_size = struct.unpack_from('!i'" in x for x in body_txt)
+    ctx.ob(R, fi, loops[0], okm, "snappy_decode does not read a big-endian int32 block length, skip it, decompress [cursor:cursor+length] and continue after it", text="block-step")
+    fe = ctx.fn("aiokafka.codec.snappy_encode")
+    se = unparse(fe.node)
+    oke = "struct.pack('!i', block_size)" in se and "block_size = len(block)" in se and "out.write(block)" in se \
+        and "zip(_XERIAL_V1_FORMAT, _XERIAL_V1_HEADER" in se and "range(0, len(payload), xerial_blocksize)" in se
+    ctx.ob(R, fe, fe.node, oke, "snappy_encode does not write header fields, then per chunk the int32 length of the compressed block and the block", text="encode-framing")
+
+
 def run(ctx):
     rep = ctx.rep
     rep.explanation = ("C09: the shape-level part of codec agreement: header layout stated five times and compared with the format's reference "
@@ -735,6 +854,7 @@ def run(ctx):
     rule_refuse_pure(ctx, px)
     rule_next_offset(ctx, px)
     rule_mask_compare(ctx, px)
+    rule_xerial(ctx)
     rep.nd("value-level round-trip for all record sequences (varint arithmetic, timestamps beyond int32 deltas, compression codecs)")
     rep.nd("byte-identical output of the two builders (they differ by design at the batch-size boundary and in the compression fallback)")
     rep.nd("size accounting formulas (size_of / _size_of_body) term by term")
